@@ -38,6 +38,8 @@ type config struct {
 	v2    bool
 	dir   bool // v2: directory back end (else in-memory)
 	cache int  // v1: keystore.WithoutCache(-1) / 1 / keystore.InfiniteCacheSize(0)
+	variant string // Redis: "(key-prefix-with-glob-metacharacters)" when the prefix holds one of * ? [ ] \ (part of the signature)
+	redis bool // Redis-backed variant (redis.go): v1 over filesystem.RedisStorage, v2 over backend.RedisBackend
 }
 
 var configs = []config{
@@ -51,10 +53,34 @@ var configs = []config{
 // fmtName is the part of a signature that names the keystore format ("v1" or "v2"); the cache size / back end is
 // part of the detail, not of the signature, unless the check is about the cache.
 func (c config) fmtName() string {
+	n := "v1"
 	if c.v2 {
-		return "v2"
+		n = "v2"
 	}
-	return "v1"
+	if c.redis {
+		return "redis " + n + c.variant // signatures of the Redis layer start with "redis "
+	}
+	return n
+}
+
+// fName is the signature prefix of the faulted-history layer.
+func (c config) fName() string {
+	n := "v1"
+	if c.v2 {
+		n = "v2"
+	}
+	if c.redis {
+		return "redis faulted-history " + n + c.variant
+	}
+	return "faulted-history " + n
+}
+
+// cpfx prefixes the counters and sets of the Redis layers, which have guards of their own.
+func (c config) cpfx() string {
+	if c.redis {
+		return "redis_"
+	}
+	return ""
 }
 
 func (c config) cached() bool { return !c.v2 && c.cache != -1 }
@@ -88,6 +114,7 @@ type store struct {
 	master []byte
 	v2keys ksrig.V2Keys
 	mem    *backend.InMemory
+	rd     *rSite // Redis-backed variants: server, database and key prefix (redis.go)
 	log    *ksrig.RecLog
 	H      ksrig.FullKeyStore // main handle (configured cache)
 	hClose func()
@@ -115,9 +142,15 @@ func (s *store) state(h *ksrig.ModelHistory) *histState {
 	return st
 }
 
-func openStore(cfg config) (*store, error) {
-	s := &store{cfg: cfg, log: ksrig.NewRecLog(), model: ksrig.NewModel(), hs: map[*ksrig.ModelHistory]*histState{}}
-	if cfg.v2 {
+func openStore(cfg config) (*store, error) { return openStoreAt(cfg, nil) }
+
+// openStoreAt: rd is the place of a Redis-backed store (nil otherwise).
+func openStoreAt(cfg config, rd *rSite) (*store, error) {
+	s := &store{cfg: cfg, rd: rd, log: ksrig.NewRecLog(), model: ksrig.NewModel(), hs: map[*ksrig.ModelHistory]*histState{}}
+	if cfg.redis {
+		s.v2keys = ksrig.NewV2Keys()
+		s.master = ksrig.RandBytes(32)
+	} else if cfg.v2 {
 		s.v2keys = ksrig.NewV2Keys()
 		if cfg.dir {
 			s.dir = ksrig.ScratchDir("c06v2")
@@ -141,6 +174,9 @@ func openStore(cfg config) (*store, error) {
 func (s *store) openHandle(name string, cache int) (ksrig.FullKeyStore, func(), error) {
 	s.nOpen++
 	handle := fmt.Sprintf("%s#%d", name, s.nOpen)
+	if s.cfg.redis {
+		return s.rd.openHandle(s.cfg, s.master, s.v2keys, cache, s.log, handle)
+	}
 	if !s.cfg.v2 {
 		ks, err := ksrig.V1WithStorage(s.dir, s.master, cache, ksrig.NewRecStorage(nil, s.log, handle))
 		if err != nil {
@@ -274,6 +310,10 @@ type runCtx struct {
 	abort bool
 }
 
+// count / setAdd: counters and sets of the Redis layer carry the prefix "redis_" (guards of their own).
+func (c *runCtx) count(name string, n int64) { c.r.Count(c.s.cfg.cpfx()+name, n) }
+func (c *runCtx) setAdd(set, member string)  { c.r.SetAdd(c.s.cfg.cpfx()+set, member) }
+
 func (c *runCtx) logf(format string, a ...interface{}) {
 	c.s.trace = append(c.s.trace, fmt.Sprintf(format, a...))
 }
@@ -285,6 +325,10 @@ func (c *runCtx) detail(extra map[string]interface{}) map[string]interface{} {
 		"seed":    c.r.Seed,
 		"trace":   append([]string{}, c.s.trace...),
 		"model":   c.modelDump(),
+	}
+	if c.s.rd != nil {
+		d["layer"] = "Redis-backed keystores (redis.go)"
+		d["redis"] = c.s.rd.describe()
 	}
 	for k, v := range extra {
 		d[k] = v
@@ -316,7 +360,7 @@ func (c *runCtx) edge(h *ksrig.ModelHistory, id string, failed bool, sig string,
 		return
 	}
 	if st.failing[id] {
-		c.r.Count("violations_persisting_not_rereported", 1)
+		c.count("violations_persisting_not_rereported", 1)
 		return
 	}
 	st.failing[id] = true
@@ -371,8 +415,8 @@ func (c *runCtx) checkConsistent(view ksrig.FullKeyStore, viewName string, h *ks
 	surv := h.Survivors()
 	r.Case()
 	r.Distinct(fmt.Sprintf("%s|%s|consistent:%s|surv=%s|newestDestroyed=%v|after=%s", s.cfg.name, h.Kind, viewName, bucket(len(surv)), newest.Destroyed, strings.SplitN(trig, "(", 2)[0]))
-	r.SetAdd("configs", s.cfg.name)
-	r.SetAdd("kinds", h.Kind.String())
+	c.setAdd("configs", s.cfg.name)
+	c.setAdd("kinds", h.Kind.String())
 	pre := fmt.Sprintf("%s kind=%s view=consistent", s.cfg.fmtName(), h.Kind)
 	state := "state=" + stateClass(h)
 	_ = trig
@@ -381,7 +425,7 @@ func (c *runCtx) checkConsistent(view ksrig.FullKeyStore, viewName string, h *ks
 	var cur []byte
 	var err error
 	site, stack := guard(func() { cur, _, err = ksrig.ModelCurrent(view, h.Kind, h.Client) })
-	r.Count("consistent_get_current_checked", 1)
+	c.count("consistent_get_current_checked", 1)
 	if site != "" {
 		c.edge(h, viewName+"/cur-panic", true, fmt.Sprintf("%s check=get-current panic at %s %s", pre, site, state), map[string]interface{}{"stack": stack, "view": viewName, "last_step": trig})
 	} else {
@@ -398,12 +442,12 @@ func (c *runCtx) checkConsistent(view ksrig.FullKeyStore, viewName string, h *ks
 			// newest generated key was destroyed: failing is accepted, returning the newest survivor is accepted
 			switch {
 			case ns != nil && bytes.Equal(cur, ns.Secret):
-				r.Count("current_fell_back_to_newest_survivor", 1)
+				c.count("current_fell_back_to_newest_survivor", 1)
 			default:
 				class = c.classifyValue(h, cur, "after-newest-destroyed")
 			}
 		} else {
-			r.Count("current_fails_after_newest_destroyed(accepted)", 1)
+			c.count("current_fails_after_newest_destroyed(accepted)", 1)
 		}
 		c.edge(h, viewName+"/cur", class != "", fmt.Sprintf("%s check=get-current class=%s %s", pre, class, state),
 			map[string]interface{}{"returned": ev.Hex(cur), "error": fmt.Sprint(err), "view": viewName, "last_step": trig})
@@ -420,7 +464,7 @@ func (c *runCtx) checkConsistent(view ksrig.FullKeyStore, viewName string, h *ks
 	}
 	var all [][]byte
 	site, stack = guard(func() { all, err = ksrig.ModelAll(view, h.Kind, h.Client) })
-	r.Count("consistent_get_all_checked", 1)
+	c.count("consistent_get_all_checked", 1)
 	if site != "" {
 		c.edge(h, viewName+"/all-panic", true, fmt.Sprintf("%s check=get-all panic at %s %s", pre, site, state), map[string]interface{}{"stack": stack, "view": viewName, "last_step": trig})
 		return
@@ -523,7 +567,7 @@ func (c *runCtx) checkSamples(h *ksrig.ModelHistory, viewName string, all [][]by
 		var out []byte
 		var err error
 		site, stack := guard(func() { out, err = decryptWith(h.Kind, sm.cipher, all) })
-		c.r.Count("decrypt_checked", 1)
+		c.count("decrypt_checked", 1)
 		id := fmt.Sprintf("%s/sample%d", viewName, i)
 		if site != "" {
 			c.edge(h, id, true, fmt.Sprintf("%s check=decrypt-earlier-value panic at %s", pre, site), map[string]interface{}{"stack": stack})
@@ -538,9 +582,9 @@ func (c *runCtx) checkSamples(h *ksrig.ModelHistory, viewName string, all [][]by
 			class = "value-under-destroyed-key-still-decrypts"
 		}
 		if key.Destroyed {
-			c.r.Count("decrypt_checked_destroyed_key", 1)
+			c.count("decrypt_checked_destroyed_key", 1)
 		} else if key.Gen != h.Newest().Gen {
-			c.r.Count("decrypt_checked_rotated_key", 1)
+			c.count("decrypt_checked_rotated_key", 1)
 		}
 		c.edge(h, id, class != "", fmt.Sprintf("%s check=decrypt-earlier-value class=%s %s", pre, class, state),
 			map[string]interface{}{"sample_generation": sm.gen, "error": fmt.Sprint(err)})
@@ -579,7 +623,7 @@ func (c *runCtx) checkWarm(h *ksrig.ModelHistory) {
 		trig = "none"
 	}
 	r.Distinct(fmt.Sprintf("%s|%s|warm|surv=%s|newestDestroyed=%v|after=%s", s.cfg.name, h.Kind, bucket(len(h.Survivors())), h.Newest().Destroyed, strings.SplitN(trig, "(", 2)[0]))
-	pre := fmt.Sprintf("v1 kind=%s view=warm-cache", h.Kind)
+	pre := fmt.Sprintf("%s kind=%s view=warm-cache", s.cfg.fmtName(), h.Kind)
 	now := map[int]bool{}
 	var all [][]byte
 	var cur []byte
@@ -588,7 +632,7 @@ func (c *runCtx) checkWarm(h *ksrig.ModelHistory) {
 		all, errAll = ksrig.ModelAll(s.H, h.Kind, h.Client)
 		cur, _, errCur = ksrig.ModelCurrent(s.H, h.Kind, h.Client)
 	})
-	r.Count("warm_monotonicity_checked", 1)
+	c.count("warm_monotonicity_checked", 1)
 	if (st.failing["main/all"] || st.failing["ref/all"] && errAll != nil) && !st.failing["warm"] {
 		// get-all was already failing on the last consistent view of this handle, or fails right now on the
 		// reference (cache-consistent) handle too: that is reported there, with the key state that causes it;
@@ -619,7 +663,7 @@ func (c *runCtx) checkWarm(h *ksrig.ModelHistory) {
 	}
 	sort.Ints(lost)
 	if len(st.offered) > 0 {
-		r.Count("warm_monotonicity_checked_with_earlier_offers", 1)
+		c.count("warm_monotonicity_checked_with_earlier_offers", 1)
 	}
 	class := "missing-from-result"
 	if errAll != nil {
@@ -661,14 +705,20 @@ func (c *runCtx) listRotated(h *ksrig.ModelHistory) (entries []ksrig.ModelListed
 			entries = ksrig.ModelFilterRotated(d, c.s.cfg.v2, h.Kind, h.Client)
 		}
 	})
-	c.r.Count("list_rotated_calls", 1)
+	c.count("list_rotated_calls", 1)
 	if site != "" {
 		c.r.Violation(fmt.Sprintf("%s op=list-rotated panic at %s", c.s.cfg.fmtName(), site), c.detail(map[string]interface{}{"stack": stack}))
 		c.abort = true
 		return nil, false
 	}
+	if err != nil && c.s.cfg.redis && !c.s.cfg.v2 && os.IsNotExist(err) {
+		// RedisStorage cannot tell an empty directory from a missing one: the listing of a keystore that holds no key
+		// at all (nothing generated yet, or everything destroyed) fails with ErrNotExist. That is the empty listing.
+		c.count("list_rotated_not_exist_taken_as_empty_listing(v1 on Redis, no key stored)", 1)
+		return nil, true
+	}
 	if err != nil {
-		c.r.Count("list_rotated_errors", 1)
+		c.count("list_rotated_errors", 1)
 		c.logf("  list-rotated error: %v", err)
 		return nil, false
 	}
@@ -680,7 +730,7 @@ func (c *runCtx) listRotated(h *ksrig.ModelHistory) (entries []ksrig.ModelListed
 // established (a violation was raised) and the run must stop.
 func (c *runCtx) reconcile(h *ksrig.ModelHistory, entries []ksrig.ModelListedEntry) bool {
 	rot := h.Rotated()
-	c.r.Count("listing_reconciled", 1)
+	c.count("listing_reconciled", 1)
 	pre := fmt.Sprintf("%s kind=%s check=list-rotated", c.s.cfg.fmtName(), h.Kind)
 	fail := func(class string) bool {
 		c.r.Violation(fmt.Sprintf("%s class=%s after=%s", pre, class, c.s.state(h).lastRelMut),
@@ -817,14 +867,14 @@ func (c *runCtx) opGenerate(k ksrig.ModelKind, id []byte, supplied bool) {
 	})
 	c.noteMutation(opName, k, id)
 	c.logf("%s %s/%s -> err=%v panic=%s", opName, k, id, err, site)
-	r.Count("op_generate", 1)
+	c.count("op_generate", 1)
 	if site != "" {
 		r.Violation(fmt.Sprintf("%s kind=%s op=%s panic at %s", s.cfg.fmtName(), k, opName, site), c.detail(map[string]interface{}{"stack": stack}))
 		c.abort = true
 		return
 	}
 	if err != nil {
-		r.Count("op_generate_errors", 1)
+		c.count("op_generate_errors", 1)
 		r.Inconclusive(fmt.Sprintf("history %d: %s of %s failed: %v (run stopped)", c.hidx, opName, k, err))
 		c.abort = true
 		return
@@ -868,7 +918,7 @@ func (c *runCtx) opDestroyCurrent(k ksrig.ModelKind, id []byte) {
 	site, stack := guard(func() { err = ksrig.ModelDestroyCurrent(s.H, k, id) })
 	c.noteMutation("destroy-current", k, id)
 	c.logf("destroy-current %s/%s -> err=%v panic=%s", k, id, err, site)
-	r.Count("op_destroy_current", 1)
+	c.count("op_destroy_current", 1)
 	if site != "" {
 		r.Violation(fmt.Sprintf("%s kind=%s op=destroy-current panic at %s", s.cfg.fmtName(), k, site), c.detail(map[string]interface{}{"stack": stack}))
 		c.abort = true
@@ -876,7 +926,7 @@ func (c *runCtx) opDestroyCurrent(k ksrig.ModelKind, id []byte) {
 	}
 	newest := h.Newest()
 	if newest == nil || newest.Destroyed {
-		r.Count("op_destroy_current_without_current", 1)
+		c.count("op_destroy_current_without_current", 1)
 		return // nothing to destroy: error or silent success are both fine, the checks demand "no change"
 	}
 	if err == nil {
@@ -885,7 +935,7 @@ func (c *runCtx) opDestroyCurrent(k ksrig.ModelKind, id []byte) {
 		return
 	}
 	// the call failed: whether the key is gone is decided by observation (both outcomes are legitimate)
-	r.Count("op_destroy_current_errors", 1)
+	c.count("op_destroy_current_errors", 1)
 	cur, _, e := ksrig.ModelCurrent(s.R, k, id)
 	if e != nil || !bytes.Equal(cur, newest.Secret) {
 		newest.Destroyed = true
@@ -934,7 +984,7 @@ func (c *runCtx) opDestroyRotated(k ksrig.ModelKind, id []byte, rng *gen.Rand, s
 		"destroyed_generations_observed": gone, "rotated_generations_oldest_first_before": gens(rot)}
 	r.Case()
 	if shown {
-		r.Count("op_destroy_rotated_shown_index", 1)
+		c.count("op_destroy_rotated_shown_index", 1)
 		pos := index - 2
 		posClass := "middle"
 		switch {
@@ -956,14 +1006,14 @@ func (c *runCtx) opDestroyRotated(k ksrig.ModelKind, id []byte, rng *gen.Rand, s
 			c.abort = true
 			return
 		case len(gone) == 1 && gone[0] == target.Gen && err == nil:
-			r.Count("destroy_rotated_shown_index_removed_exactly_the_listed_key", 1)
+			c.count("destroy_rotated_shown_index_removed_exactly_the_listed_key", 1)
 		case len(gone) == 0:
 			r.Violation(fmt.Sprintf("%s index=shown(%s-of-%s) class=nothing-removed(error=%s)", pre, posClass, many(len(rot)), errClass(err)), c.detail(extra))
 		default:
 			r.Violation(fmt.Sprintf("%s index=shown(%s-of-%s) class=removed-a-different-key-than-listed", pre, posClass, many(len(rot))), c.detail(extra))
 		}
 	} else {
-		r.Count("op_destroy_rotated_unshown_index", 1)
+		c.count("op_destroy_rotated_unshown_index", 1)
 		r.Distinct(fmt.Sprintf("%s|%s|destroy-rotated-unshown|n=%s|%s", s.cfg.name, k, bucket(len(rot)), class))
 		switch {
 		case site != "":
@@ -975,9 +1025,9 @@ func (c *runCtx) opDestroyRotated(k ksrig.ModelKind, id []byte, rng *gen.Rand, s
 		case len(gone) > 0:
 			r.Violation(fmt.Sprintf("%s index=not-shown(%s) class=removed-a-key", pre, class), c.detail(extra))
 		case err == nil:
-			r.Count("destroy_rotated_unshown_index_silently_succeeded_without_change(not a violation)", 1)
+			c.count("destroy_rotated_unshown_index_silently_succeeded_without_change(not a violation)", 1)
 		default:
-			r.Count("destroy_rotated_unshown_index_rejected", 1)
+			c.count("destroy_rotated_unshown_index_rejected", 1)
 		}
 	}
 	// the model follows what was observed, so that one defect is reported once and the run can go on
@@ -1041,13 +1091,13 @@ func (c *runCtx) opSample(k ksrig.ModelKind, id []byte, rng *gen.Rand) {
 	})
 	if site != "" || err != nil || keyGen != newest.Gen {
 		// the current-key checks report any disagreement; a sample is only kept when its key is known
-		c.r.Count("samples_skipped", 1)
+		c.count("samples_skipped", 1)
 		return
 	}
 	st := c.s.state(h)
 	if len(st.samples) < 6 {
 		st.samples = append(st.samples, sample{gen: keyGen, cipher: cipher, plain: plain})
-		c.r.Count("samples_encrypted", 1)
+		c.count("samples_encrypted", 1)
 		c.logf("encrypt-sample %s/%s under generation %d", k, id, keyGen)
 	}
 }
@@ -1055,7 +1105,7 @@ func (c *runCtx) opSample(k ksrig.ModelKind, id []byte, rng *gen.Rand) {
 func (c *runCtx) opRead(k ksrig.ModelKind, id []byte) {
 	h := c.history(k, id)
 	c.logf("read %s/%s through main handle (consistent=%v)", k, id, c.s.mainConsistent())
-	c.r.Count("op_read", 1)
+	c.count("op_read", 1)
 	c.checkMain(h)
 }
 
@@ -1076,10 +1126,10 @@ func (c *runCtx) opList() {
 	site, stack := guard(func() {
 		_, err := s.H.ListKeys()
 		if err != nil {
-			c.r.Count("list_keys_errors(not decided)", 1)
+			c.count("list_keys_errors(not decided)", 1)
 		}
 	})
-	c.r.Count("op_list_keys", 1)
+	c.count("op_list_keys", 1)
 	c.logf("list-keys panic=%s", site)
 	if site != "" {
 		c.r.Violation(fmt.Sprintf("%s op=list-keys panic at %s", s.cfg.fmtName(), site), c.detail(map[string]interface{}{"stack": stack}))
@@ -1101,7 +1151,7 @@ func (c *runCtx) opList() {
 func (c *runCtx) opReset() {
 	c.s.H.Reset()
 	c.s.dirty = false
-	c.r.Count("op_reset_cache", 1)
+	c.count("op_reset_cache", 1)
 	c.logf("reset-cache")
 }
 
@@ -1121,12 +1171,88 @@ func (c *runCtx) opReopen() {
 	for _, st := range s.hs {
 		st.offered = map[int]bool{}
 	}
-	c.r.Count("op_reopen", 1)
+	c.count("op_reopen", 1)
 	c.logf("reopen (fresh handle)")
 }
 
 // ---------------------------------------------------------------------------------------------
 // one history
+
+// stepOp performs one seeded step on key (k, id); it says whether the step was a mutating one.
+func (c *runCtx) stepOp(rng *gen.Rand, k ksrig.ModelKind, id []byte) (mutated bool) {
+	h := c.history(k, id)
+	x := rng.Intn(100)
+	switch {
+	case x < 30 || len(h.Keys) == 0 && x < 60:
+		c.opGenerate(k, id, false)
+		mutated = true
+	case x < 34:
+		if k == ksrig.ModelStoragePair {
+			c.opGenerate(k, id, true)
+			mutated = true
+		} else {
+			c.opRead(k, id)
+		}
+	case x < 50:
+		c.opRead(k, id)
+	case x < 56:
+		c.opList()
+	case x < 65:
+		if k.HasDestroy() {
+			c.opDestroyCurrent(k, id)
+			mutated = true
+		}
+	case x < 79:
+		if k.HasDestroy() {
+			c.opDestroyRotated(k, id, rng, true)
+			mutated = true
+		}
+	case x < 84:
+		if k.HasDestroy() {
+			c.opDestroyRotated(k, id, rng, false)
+			mutated = true
+		}
+	case x < 90:
+		c.opReset()
+	case x < 94:
+		c.opReopen()
+	default:
+		c.opSample(k, id, rng)
+	}
+	return mutated
+}
+
+// checkRef: the reference (cache-consistent) view of every key that exists.
+func (c *runCtx) checkRef() {
+	for _, hh := range c.s.model.All() {
+		c.checkConsistent(c.s.R, "ref", hh, c.trigger(hh))
+	}
+}
+
+// afterStep runs the oracles that follow every step on (k, id).
+func (c *runCtx) afterStep(rng *gen.Rand, k ksrig.ModelKind, id []byte, mutated bool) {
+	s := c.s
+	h := c.history(k, id)
+	// after every step: the reference (cache-consistent) view of every key that exists ...
+	c.checkRef()
+	// ... and the main handle for the key just touched plus, sometimes, another one (reading through the main
+	// handle warms its cache, so this is itself part of the generated history)
+	if mutated {
+		for _, hh := range s.model.All() {
+			if !strings.HasSuffix(relate("x", k, string(id), hh), "(unrelated-key)") {
+				c.checkMain(hh)
+			}
+		}
+	} else if rng.Intn(100) < 40 {
+		c.checkMain(h)
+	}
+	if rng.Intn(100) < 30 {
+		all := s.model.All()
+		if len(all) > 0 {
+			c.checkMain(all[rng.Intn(len(all))])
+		}
+	}
+}
 
 func runHistory(r *ev.Run, hidx int) {
 	cfg := configs[hidx%len(configs)]
@@ -1157,76 +1283,17 @@ func runHistory(r *ev.Run, hidx int) {
 	c.logf("config %s, %d steps", cfg.name, n)
 	for step := 0; step < n && !c.abort; step++ {
 		t := pick()
-		h := c.history(t.k, t.id)
-		mutated := false
-		x := rng.Intn(100)
-		switch {
-		case x < 30 || len(h.Keys) == 0 && x < 60:
-			c.opGenerate(t.k, t.id, false)
-			mutated = true
-		case x < 34:
-			if t.k == ksrig.ModelStoragePair {
-				c.opGenerate(t.k, t.id, true)
-				mutated = true
-			} else {
-				c.opRead(t.k, t.id)
-			}
-		case x < 50:
-			c.opRead(t.k, t.id)
-		case x < 56:
-			c.opList()
-		case x < 65:
-			if t.k.HasDestroy() {
-				c.opDestroyCurrent(t.k, t.id)
-				mutated = true
-			}
-		case x < 79:
-			if t.k.HasDestroy() {
-				c.opDestroyRotated(t.k, t.id, rng, true)
-				mutated = true
-			}
-		case x < 84:
-			if t.k.HasDestroy() {
-				c.opDestroyRotated(t.k, t.id, rng, false)
-				mutated = true
-			}
-		case x < 90:
-			c.opReset()
-		case x < 94:
-			c.opReopen()
-		default:
-			c.opSample(t.k, t.id, rng)
-		}
-		r.Count("steps", 1)
+		mutated := c.stepOp(rng, t.k, t.id)
+		c.count("steps", 1)
 		if c.abort {
 			break
 		}
-		// after every step: the reference (cache-consistent) view of every key that exists ...
-		for _, hh := range s.model.All() {
-			c.checkConsistent(s.R, "ref", hh, c.trigger(hh))
-		}
-		// ... and the main handle for the key just touched plus, sometimes, another one (reading through the main
-		// handle warms its cache, so this is itself part of the generated history)
-		if mutated {
-			for _, hh := range s.model.All() {
-				if !strings.HasSuffix(relate("x", t.k, string(t.id), hh), "(unrelated-key)") {
-					c.checkMain(hh)
-				}
-			}
-		} else if rng.Intn(100) < 40 {
-			c.checkMain(h)
-		}
-		if rng.Intn(100) < 30 {
-			all := s.model.All()
-			if len(all) > 0 {
-				c.checkMain(all[rng.Intn(len(all))])
-			}
-		}
+		c.afterStep(rng, t.k, t.id, mutated)
 	}
 	if c.abort {
-		r.Count("histories_stopped_early", 1)
+		c.count("histories_stopped_early", 1)
 	}
-	r.Count("histories", 1)
+	c.count("histories", 1)
 	r.SampleN(cfg.name, 2, map[string]interface{}{"config": cfg.name, "history": hidx, "steps": s.trace})
 }
 
@@ -1237,7 +1304,7 @@ func Run(r *ev.Run) {
 		"Histories are a pure function of VERIF_SEED: history i uses configuration i mod 5 and PRNG stream (seed, i); key VALUES are random (generated by Acra) and are only ever compared after reading them back."
 	r.Assumptions = []string{
 		"crypto library replaced by the pure-Go gothemis stand-in (contract level)",
-		"Redis storage / Redis back end not driven; v1 over the real filesystem (scratch dir), v2 over InMemory and DirectoryBackend",
+		"first two workload classes: v1 over the real filesystem (scratch dir), v2 over InMemory and DirectoryBackend; Redis-backed variants: see the Redis layer below",
 		"cache-consistent view = cache off, or no mutating call since the handle was opened / Reset(); everything else on a cached v1 handle is judged by monotonicity only",
 		"listing lines are identified by creation time in v1 (rotated file name, unique) and by key-ring seqnum/state in v2 (creation times there have second resolution)",
 	}
@@ -1266,6 +1333,11 @@ func Run(r *ev.Run) {
 	start = time.Now()
 	runFaultedHistories(r, workers)
 	r.Extra("wall_faulted_histories_s", time.Since(start).Seconds())
+	// Redis-backed keystores (redis.go, redisfaulted.go): the same histories, model and oracles over
+	// filesystem.RedisStorage / backend.RedisBackend on the in-process stand-in server
+	start = time.Now()
+	runRedisLayer(r, workers)
+	r.Extra("wall_redis_layer_s", time.Since(start).Seconds())
 	// non-vacuity: every oracle must have been exercised
 	q := func(quick, thorough int64) int64 {
 		if r.Thorough() {
